@@ -48,6 +48,11 @@ def run_cases(cases, res, stratum):
                 # resizing a SCALED holder with dtype=<string> reproduces the format the string denotes, the complex suffix included
                 xs_ = fx.Fxp([1.0, 1.0], True, 8, 2, scale=2, bias=1); xs_.resize(dtype=fxp_str(s, n, nf, cx))
                 obs['scaled_resize'] = (bool(xs_.signed), int(xs_.n_word), int(xs_.n_frac), 'complex' in xs_.dtype, xs_.dtype == xs_.get_dtype())
+            if n <= 52:
+                # resizing with a dtype string reproduces the format the string denotes whatever the object was declared before: a holder of REAL
+                # values declared complex by an earlier resize and resized again with this string has this string's format, complex flag included
+                xr_ = fx.Fxp([1.0, 0.5], True, 16, 4); xr_.resize(dtype='fxp-s16/4-complex'); xr_.resize(dtype=fxp_str(s, n, nf, cx))
+                obs['redeclared'] = (bool(xr_.signed), int(xr_.n_word), int(xr_.n_frac), 'complex' in xr_.dtype, xr_.dtype == xr_.get_dtype())
             # the second parser of dtype strings (utils.get_sizes_from_dtype, reached through fxp_sum(dtype=...))
             try:
                 sm = fx.fxp_sum(fx.Fxp([0, 0], s, n, nf), dtype=fxp_str(s, n, nf, cx)); obs['sum_dtype'] = (bool(sm.signed), int(sm.n_word), int(sm.n_frac))
@@ -102,6 +107,8 @@ def run_cases(cases, res, stratum):
             res.fail(c, 'C12: fxp_sum(dtype=x.dtype) (utils.get_sizes_from_dtype) does not reproduce the format', expected=(s, n, nf), got=obs['sum_dtype']); k += len(obs['parse']); continue
         if obs.get('scaled_resize') is not None and obs['scaled_resize'] != (s, n, nf, cx, True):
             res.fail(c, 'C12: resize(dtype=<string>) of a scaled object does not reproduce the format the string denotes (sizes, complex suffix)', expected=(s, n, nf, cx, True), got=obs['scaled_resize']); k += len(obs['parse']); continue
+        if obs.get('redeclared') is not None and obs['redeclared'] != (s, n, nf, cx, True):
+            res.fail(c, 'C12: resize(dtype=<string>) of an object of real values that an earlier resize had declared complex does not reproduce the format the string denotes', expected=(s, n, nf, cx, True), got=obs['redeclared']); k += len(obs['parse']); continue
         if obs.get('elem_complex') is not None and obs['elem_complex'] != (fxp_str(s, n, nf, True), True):
             res.fail(c, 'C12: after a complex element was written into an object of real values its dtype string does not carry the complex suffix (stale attribute)', expected=(fxp_str(s, n, nf, True), True), got=obs['elem_complex']); k += len(obs['parse']); continue
         if obs.get('ctor_real') is not None and ('complex' in obs['ctor_real'][0]) != cx:
